@@ -190,6 +190,17 @@ void do_op(string op) {
     n = find_call_out("cof" + a[1]);
     rec("FCN " + me() + " " + a[1] + " ret=" + n + " t=" + time());
     break;
+  case "at":      // at <n> <op...>: only on the n-th heart beat of this object
+    if (this_object()->query_n_hb() == to_int(a[1])) do_op(implode(a[2..], " "));
+    break;
+  case "hbs":     // record heart_beats() as seen by LPC
+    {
+      object *hl; string r; int k;
+      hl = heart_beats(); r = "";
+      for (k = 0; k < sizeof(hl); k++) r += " " + (hl[k] ? hl[k]->me() : "0") + ":" + query_heart_beat(hl[k]);
+      rec("HBS" + r);
+    }
+    break;
   case "as":      // as <ob> <script>: run a script as another object
     o = ob_of(a[1]);
     if (o) o->run(sub(implode(a[2..], " ")));
